@@ -105,7 +105,8 @@ def support(s, n):
   elif t == MESH:
     dots = s.verts @ nl
     mx = dots.max()
-    sel = dots >= mx - 1e-9 * (1.0 + abs(mx))
+    # mesh vertices are stored in float32 and re-expressed in the mesh's inertial frame: ties are only ~1e-8 exact
+    sel = dots >= mx - 2e-6 * (1e-2 + np.abs(s.verts).max())
     pl = s.verts[sel].mean(0)
   elif t == PLANE:
     # half-space z_local <= 0: bounded only along its own normal
